@@ -27,7 +27,7 @@ type Server struct {
 	wg     sync.WaitGroup
 	// Received counts datagrams received.
 	Received atomic.Int64
-	jitter func() time.Duration
+	jitter   func() time.Duration
 }
 
 // SetJitter installs a function returning an extra delay per reply.
